@@ -150,6 +150,15 @@ def observe(sb, font_name):
                 bounds[gn] = (g.xMin, g.yMin, g.xMax, g.yMax)
         obs["bounds"] = bounds
         obs["n_glyphs"] = len(order)
+    if obs["colr_version"] == 1 and g600:
+        from . import oracle_cmp
+
+        try:
+            ls = oracle_cmp.colr_layers(f, g600)
+            bs = [sh.bounds for L in ls for sh in L.shapes if sh.bounds]
+            obs["paint_bounds"] = (min(b[0] for b in bs), min(b[1] for b in bs), max(b[2] for b in bs), max(b[3] for b in bs)) if bs else None
+        except Exception:
+            obs["paint_bounds"] = None
     if "GSUB" in f:
         obs["features"] = sorted({fr.FeatureTag for fr in f["GSUB"].table.FeatureList.FeatureRecord})
     if "SVG " in f:
@@ -196,11 +205,9 @@ def expected_ok(field, intended, obs, base_obs, sb):
     if field == "transform":
         m = re.match(r"translate\((-?\d+), (-?\d+)\)", intended) if isinstance(intended, str) else None
         dx, dy = (int(m.group(1)), int(m.group(2))) if m else (0, 0)
-        for gn, b in base_obs["bounds"].items():
-            if gn.startswith("g_1f600."):
-                nb = obs["bounds"].get(gn)
-                if nb is None or any(abs(nb[i] - (b[i] + (dx, dy, dx, dy)[i])) > 1 for i in range(4)):
-                    return f"{gn} bounds {nb} != base {b} shifted by ({dx},{dy})"
+        b, nb = base_obs.get("paint_bounds"), obs.get("paint_bounds")
+        if not b or not nb or any(abs(nb[i] - (b[i] + (dx, dy, dx, dy)[i])) > 2 for i in range(4)):
+            return f"painted bounds {nb} != base {b} shifted by ({dx},{dy})"
         return None
     if field == "reuse_tolerance":
         base_n = base_obs["n_glyphs"]  # default tolerance reuses the congruent rects
@@ -208,7 +215,9 @@ def expected_ok(field, intended, obs, base_obs, sb):
             return None if obs["n_glyphs"] > base_n else f"reuse disabled but still {obs['n_glyphs']} glyphs (base {base_n})"
         return None if obs["n_glyphs"] <= base_n else f"reuse enabled but {obs['n_glyphs']} glyphs (base {base_n})"
     if field == "clip_to_viewbox":
-        xmin = min(b[0] for gn, b in obs["bounds"].items() if gn.startswith("g_1f600."))
+        if not obs.get("paint_bounds"):
+            return "no painted bounds"
+        xmin = obs["paint_bounds"][0]   # through the paint graph (the rect may be a transformed reuse of another)
         # the third rect starts at x=-30 (viewBox units) => left of the advance origin when not clipped
         clipped = xmin >= 0 - 1 + 37  # scale 12, dx = (1275-1200)/2 = 37.5
         return None if clipped == intended else f"clip_to_viewbox={intended} but leftmost outline x={xmin}"
